@@ -3,7 +3,7 @@ CONSTANTS
   Holders = {"a", "b", "c", "x"}
   Full = FALSE
   TamperLen = 100
-  Lens = {0, 8, 100}
+  Lens = {0, 8, 100, 65535, 65536}
   Passwords = {"empty", "ascii", "utf8", "long", "badutf8"}
   WrongPwd = {"char", "case", "longer", "shorter", "empty", "other", "lowbyte", "badbyte"}
 INVARIANTS RecipientsRecover OnlyRecipients VerifiesExactlyWhenGenuine BundleOnlyWithPassword Emit
